@@ -98,6 +98,11 @@ type WsHeader struct {
 
 const WsMagicStr = "258EAFA5-E914-47DA-95CA-C5AB0DC85B11"
 
+// WsReadPayloadMaxLength is the largest payload length ReadWsPayload accepts. The length is a 64-bit field under
+// the peer's control and the payload is read into memory as a whole; the frames read by lal carry signalling
+// messages, which are far smaller.
+const WsReadPayloadMaxLength = 1 << 20
+
 func MakeWsFrameHeader(wsHeader WsHeader) (buf []byte) {
 	headerSize := 2
 	payload := uint64(0)
@@ -227,6 +232,10 @@ func ReadWsPayload(r *bufio.Reader) ([]byte, error) {
 		}
 
 		h.MaskKey = bele.BeUint32(buf)
+	}
+
+	if h.PayloadLength > WsReadPayloadMaxLength {
+		return nil, fmt.Errorf("payload too large: %d", h.PayloadLength)
 	}
 
 	payload := make([]byte, h.PayloadLength)
